@@ -16,5 +16,7 @@ CONSTANTS MinReq = 2
  MaxTime = 3
  MaxInject = 1
  Malformed = FALSE
+ Lossy = TRUE
+ WithDecide = TRUE
 INVARIANTS Safety NoAbort FullExchangeAgree
 CHECK_DEADLOCK FALSE
